@@ -39,12 +39,12 @@ def gen_universe(rng, k, size=4, shared=3, minor_choices=(3,)):
     """Returns a list of k parsed-database dicts (each also tagged with 'minor').
 
     Shared types: `shared` true names "sh<j>", each with a role per library in
-    {absent, forward, forward-global, full, full-global}; plus wrapper types
+    {absent, forward, forward-global, full, full-global, hidden}; plus wrapper types
     ("int", "sh<j> *") duplicated in several libraries."""
     roles = []
     for j in range(shared):
         while True:
-            rs = [rng.choice(["absent", "forward", "forward", "forward-global", "full", "full-global"]) for _ in range(k)]
+            rs = [rng.choice(["absent", "forward", "forward", "forward-global", "full", "full-global", "hidden"]) for _ in range(k)]
             if sum(1 for r in rs if r != "absent") >= min(2, k):
                 break
         roles.append(rs)
@@ -143,7 +143,14 @@ def _gen_lib(rng, li, k, size, shared_roles, minor):
         full = role.startswith("full")
         glob = role.endswith("global")
         # a forward declaration has no body; a full definition differs per library (conflict case keeps them distinguishable)
-        db["types"][i] = mk_type(i, tag, ("sh%d" % j).encode(), ("Sh%d" % j).encode(), full, glob, body=full)
+        t = mk_type(i, tag, ("sh%d" % j).encode(), ("Sh%d" % j).encode(), full, glob, body=full)
+        if role == "hidden":
+            # what interrogate writes for a local class without published members: not fully defined, but with its bases
+            t["flags"] |= F.TF_UNPUBLISHED
+            t["derivations"] = [{"flags": rng.below(8), "base": pick(Ty, False), "upcast": pick(Fn), "downcast": pick(Fn)} for _ in range(rng.range(1, 3))]
+        elif not full and rng.chance(1, 2):
+            t["flags"] &= ~F.TF_UNPUBLISHED
+        db["types"][i] = t
     if nwrapt:
         i = next(ti)
         t = mk_type(i, "int", b"int", b"int", True, False, body=False)
